@@ -364,12 +364,19 @@ PLANS["C13"] = {
              "pad of SNOW-V-AEAD - are computed with the reference models and registers, stack window and manager are "
              "searched for either 8-byte half of each value. The same value search runs after each direct AEAD call "
              "(GCM pre / one-shot enc+dec / init-update-finalize for the three key sizes, GHASH pre + GHASH, "
-             "ChaCha20-Poly1305 init-update-finalize) for H, E_K(J0), the one-time Poly1305 key and the raw key."),
+             "ChaCha20-Poly1305 init-update-finalize) for H, E_K(J0), the one-time Poly1305 key and the raw key. "
+             "Key-preparation helpers are additionally called with random keys (24 helper forms: AES-128/192/256, DES, SM4, "
+             "SNOW3G, KASUMI F8/F9, XCBC, CMAC sub-keys 128/256, GCM pre 128/192/256, GHASH pre, imb_hmac_ipad_opad for "
+             "MD5/SHA-1/224/256/384/512 incl. over-long key and one-state-only) and every entropic aligned 8-byte chunk of "
+             "what the helper wrote into the caller's objects (round keys, schedules, sub-keys, hash-key tables, ipad/opad "
+             "states) and of the raw key is searched for in the register dump and the stack window (model-free DERIVED class)."),
     "floors": {"quick": {"residue_scans": 15000, "helper_scans": 150, "derived_secret_searches": 20000,
-                         "direct_value_scans": 8000}},
+                         "direct_value_scans": 8000, "helper_value_scans": 400,
+                         "helper_value_chunks_searched": 12000}},
     "assumptions": ["only residue present at the return of the emptying API call is observable",
-                    "derived secrets other than those listed under DERIVED (round keys computed from a real key, "
-                    "LFSR states, CCM S0) are outside both oracles; expanded key material is patterned directly instead"],
+                    "derived secrets other than those listed under DERIVED (round keys computed inside a job from a real key, "
+                    "LFSR/FSM states of the stream ciphers, CBC-MAC/HMAC intermediate values) are outside both oracles; "
+                    "expanded key material is patterned directly instead, and what the key helpers derive is searched by value"],
 }
 
 
